@@ -84,6 +84,12 @@ def main():
         from vlib import refhash
         refhash.selftest()
         print("pymemcache from", os.path.dirname(pymemcache.__file__))
+        # optional: atheris for C03's coverage-guided tier (thorough only); absence is recorded, not fatal
+        try:
+            import atheris  # noqa: F401
+        except ImportError:
+            os.makedirs(DEPS, exist_ok=True)
+            subprocess.run([sys.executable, "-m", "pip", "install", "--quiet", "--no-index", "--find-links", WHEELS, "--target", DEPS, "atheris"])
         print("C murmur3 reference:", "compiled" if refhash.c_reference() else "unavailable (pure-Python reference only)")
         bad = 0
         for p in all_props():
